@@ -352,10 +352,19 @@ static void ovr_setup_realpath(const char* dir) {
   if (realpath(ovr_pathsrc, ovr_pathres) == NULL) { ovr_pathsrc[0] = '/'; ovr_pathsrc[1] = 0; ovr_pathres[0] = '/'; ovr_pathres[1] = 0; }
 }
 
+/* a call that never returns (a corrupted free list ...) ends like a crash: logged as {"e":"crash","sig":14} */
+static void ovr_watchdog(unsigned seconds) {
+  struct sigaction sa; memset(&sa, 0, sizeof(sa));
+  sa.sa_handler = vf_crash_handler; sa.sa_flags = SA_ONSTACK;
+  sigaction(SIGALRM, &sa, NULL);
+  alarm(seconds);
+}
+
 /* usage: <exe> --out trace --prog file --mode preload|static --dir existing-directory */
 static int ovr_main(int argc, char** argv, const char* lang) {
-  const char* out = NULL; const char* prog = NULL; const char* mode = "?"; const char* dir = "/";
+  const char* out = NULL; const char* prog = NULL; const char* mode = "?"; const char* dir = "/"; unsigned wd = 60;
   for (int i = 1; i + 1 < argc; i += 2) {
+    if (ovr_streq(argv[i], "--watchdog")) wd = (unsigned)atoi(argv[i + 1]);
     if (ovr_streq(argv[i], "--out")) out = argv[i + 1];
     else if (ovr_streq(argv[i], "--prog")) prog = argv[i + 1];
     else if (ovr_streq(argv[i], "--mode")) mode = argv[i + 1];
@@ -365,6 +374,7 @@ static int ovr_main(int argc, char** argv, const char* lang) {
   ovr_resolve();
   ovr_setup_realpath(dir);
   vf_log_open(out);
+  ovr_watchdog(wd);
   ovr_log_cfg(mode, lang);
   ovr_run_program(prog);
   vf_logf("{\"e\":\"end\",\"pairs\":%d}", ovr_pairs_run); vf_log_line_end();
@@ -416,6 +426,7 @@ static int ovr_x_open(int argc, char** argv, const char* lang, const char** dir)
   ovr_resolve();
   ovr_fill = 0; ovr_count_used = 0; ovr_base = 16;
   vf_log_open(out);
+  ovr_watchdog(60);
   ovr_log_cfg(mode, lang);
   return 0;
 }
